@@ -26,7 +26,15 @@ fn gen_float(r: &mut Rng) -> f64 {
     }
 }
 fn gen_string(r: &mut Rng) -> String {
-    match r.below(10) {
+    match r.below(12) {
+        // long strings: escapable and multi-byte characters at and around positions 8, 16, 32, 64
+        // (vectorised scanning works in blocks of such sizes)
+        10 | 11 => {
+            let n = *r.pick(&[15usize, 16, 17, 31, 32, 33, 63, 64, 65, 130]);
+            let special = ['\\', '"', '\n', 'é', '\u{301}', '日'];
+            let at = [r.below(n as u64) as usize, r.below(n as u64) as usize, *r.pick(&[7usize, 8, 15, 16, 31, 32])];
+            (0..n).map(|i| if at.contains(&i) { *r.pick(&special) } else { (b'a' + (i % 26) as u8) as char }).collect()
+        }
         0..=6 => r.pick(STRINGS).to_string(),
         7 => format!("{}{}", r.pick(STRINGS), r.pick(STRINGS)),
         _ => {
